@@ -19,8 +19,16 @@ let show_res = function
 (* observation of one operation: the operation, the bucket's answer rendered
    like show_res, the content of a successful read, and for listings the
    kind of context used and whether the iterator surfaced an error *)
-type obs = { op : op; impl : string; impl_rres : rres option; lctx : string; lerr : bool; lnames : n list list }
-let mk op impl = { op; impl; impl_rres = None; lctx = "live"; lerr = false; lnames = [] }
+type obs = { op : op; w : wop option; impl : string; impl_rres : rres option; lctx : string; lerr : bool; lnames : n list list }
+let mk op impl = { op; w = None; impl; impl_rres = None; lctx = "live"; lerr = false; lnames = [] }
+(* writer operations (handles); op is a placeholder then *)
+let mkw w impl = { (mk (OList []) impl) with w = Some w }
+let show_wres = function WR r -> show_res r | WOk ok -> "O:" ^ string_of_bool ok
+let show_wop = function
+  | WPlain _ -> "plain"
+  | WOpen n -> Printf.sprintf "open-writer(%S)" (string_of_bytes n)
+  | WWrite (k, d) -> Printf.sprintf "writer#%d.write(%d bytes)" (int_of_nat k) (List.length d)
+  | WClose k -> Printf.sprintf "writer#%d.close()" (int_of_nat k)
 let parse_op c =
   match next c with
   | "w" ->
@@ -46,6 +54,19 @@ let parse_op c =
     let sr = next_bytes c in
     let ok = next_bool c in
     mk (OCopy (d, sr)) ("C:" ^ string_of_bool ok)
+  | "wo" ->
+    let n = next_bytes c in
+    let ok = next_bool c in
+    mkw (WOpen n) ("O:" ^ string_of_bool ok)
+  | "ww" ->
+    let k = next_int c in
+    let d = next_bytes c in
+    let ok = next_bool c in
+    mkw (WWrite (nat_of_int k, d)) ("O:" ^ string_of_bool ok)
+  | "wc" ->
+    let k = next_int c in
+    let ok = next_bool c in
+    mkw (WClose (nat_of_int k)) ("O:" ^ string_of_bool ok)
   | t -> failwith ("bad op tag " ^ t)
 
 let show_op = function
@@ -58,11 +79,21 @@ let show_tree l =
   String.concat ";" (List.map (fun (p, k, ct) -> Printf.sprintf "%s:%s:%s" (hex p) k (hex ct)) l)
 
 (* per bucket: the strict specification map and the name last copied onto itself *)
-type bstate = { mutable sp : (n list list * n list) list; mutable self_copied : n list option }
-let new_bstate () = { sp = []; self_copied = None }
+type bstate = { mutable sp : (n list list * n list) list; mutable self_copied : n list option;
+                mutable hs : handle list (* the writers opened so far, as the specification sees them *) }
+let new_bstate () = { sp = []; self_copied = None; hs = [] }
 
 (* PROP: the property's specification (strict map) on the REAL answer of one operation *)
-let judge label st (o : obs) =
+let rec judge label st (o : obs) =
+  match o.w with
+  | Some w ->
+    (* a writer operation: the strict specification appends to the writer's object *)
+    let (rs, (sp', hs')) = step_w_spec true (st.sp, st.hs) w in
+    if show_wres rs <> o.impl then
+      prop "stream-write" (Printf.sprintf "%s %s: property expects %s, bucket answered %s" label (show_wop w) (show_wres rs) o.impl);
+    st.sp <- sp'; st.hs <- hs'; st.self_copied <- None
+  | None -> judge_plain label st o
+and judge_plain label st (o : obs) =
   let op = o.op in
   let (rs, sp') = step_spec true st.sp op in
   let sp' = ref sp' in
@@ -130,13 +161,20 @@ let handle kind c =
     let confined = next_bool c in
     let tree = parse_tree c in
     let fs = ref fs_init in
+    let mhs = ref [] in
     let st = new_bstate () in
     let i = ref 0 in
     List.iter (fun o ->
         incr i;
-        let (ma, fs') = model_answer !fs o in
-        if ma <> o.impl then diff (Printf.sprintf "op%d-%s" !i (show_op o.op)) ~model:ma ~impl:o.impl;
-        fs := fs';
+        (match o.w with
+         | Some w ->
+           let (rm, (fs', hs')) = step_w (!fs, !mhs) w in
+           if show_wres rm <> o.impl then diff (Printf.sprintf "op%d-%s" !i (show_wop w)) ~model:(show_wres rm) ~impl:o.impl;
+           fs := fs'; mhs := hs'
+         | None ->
+           let (ma, fs') = model_answer !fs o in
+           if ma <> o.impl then diff (Printf.sprintf "op%d-%s" !i (show_op o.op)) ~model:ma ~impl:o.impl;
+           fs := fs');
         judge (Printf.sprintf "op %d" !i) st o) ops;
     if not confined then prop "confined" "a path outside the bucket directory was created or changed";
     check_tree "" !fs st tree
